@@ -468,7 +468,7 @@ pub fn exec_c14_dyn(c: &C14Case, threads: bool) -> CaseResult {
 }
 
 pub fn run_c14_runtime(tier: &str, seed: u64) -> Outcome {
-    let (cases, shards, max_ops) = if tier == "thorough" { (1500u32, 16u32, 80usize) } else { (150, 1, 40) };
+    let (cases, shards, max_ops) = if tier == "thorough" { (1500u32, 16u32, 80usize) } else { (200, 4, 40) };
     let threads = std::thread::available_parallelism().map(|n| n.get()).unwrap_or(4).min(16);
     let mut jobs = Vec::new();
     for t in crate::tp::ALL_TYPES {
